@@ -72,7 +72,7 @@ impl<'i> SmlParse<'i> for TypeLengthField {
             input = input_new;
             has_more_bytes = has_more_bytes_new;
 
-            len = match len.checked_shl(4) {
+            len = match len.checked_mul(16) {
                 Some(l) => l,
                 None => {
                     return Err(TlfParseError::TlfLengthOverflow.into());
